@@ -1406,20 +1406,20 @@ def run(ctx: Ctx) -> None:
             safe(ctx, inp["producer"], inp, batch)
     for inp in netgen_cases(ctx):
         safe(ctx, "netgen", inp, batch)
-    for _ in range(ctx.n(150, 3000)):
+    for _ in range(ctx.n(150, 2000)):
         safe(ctx, "die", gen_die(rng), batch)
-    for _ in range(ctx.n(150, 3000)):
+    for _ in range(ctx.n(150, 1500)):
         inp = gen_alloc(rng)
         safe(ctx, "alloc", inp, batch)
         if rng.random() < 0.7:
             safe(ctx, "rectio", {"producer": "rectio", "alloc": inp}, batch)
-    for _ in range(ctx.n(100, 3000)):
+    for _ in range(ctx.n(100, 2000)):
         safe(ctx, "namededges", gen_namededges(rng), batch)
-    for _ in range(ctx.n(100, 3000)):
+    for _ in range(ctx.n(100, 1500)):
         safe(ctx, "floorset", gen_floorset(rng), batch)
-    for _ in range(ctx.n(120, 3000)):
+    for _ in range(ctx.n(120, 2000)):
         safe(ctx, "solnet", gen_solnet(rng), batch)
-    for _ in range(ctx.n(100, 3000)):
+    for _ in range(ctx.n(100, 1500)):
         safe(ctx, "legalfloor", gen_legal(rng), batch)
     batch.flush(ctx)
 
